@@ -94,6 +94,9 @@ fn build_program(seed: u64) -> Vec<(usize, u8)> {
   // an interrupt gets in at block ends only)
   let long_n = *rng.pick(&[300usize, 1030, 2100]);
   a.at(0x3100); for _ in 0..long_n { a.b(&[0x04]); } a.b(&[0xc9]);
+  // a routine in the FIXED bank that reads a byte of the switchable bank (0x4001 holds bank*16 in banks 1..7, 0x50 in bank 0):
+  // LD A,(0x4001) ; RET - its translation is shared by all banks, its result is not
+  a.at(0x3a00); a.b(&[0xfa, 0x01, 0x40, 0xc9]);
   // main program
   a.at(0x0150);
   a.b(&[0xf3, 0x31, 0xff, 0xdf, 0x21, 0x00, 0xc0]);          // DI ; LD SP,0xDFFF ; LD HL,0xC000
@@ -119,7 +122,11 @@ fn build_program(seed: u64) -> Vec<(usize, u8)> {
   let main_loop = a.pc;
   let nfrag = 6 + rng.below(10) as usize;
   for _ in 0..nfrag {
-    match rng.below(14) {
+    match rng.below(15) {
+      14 => {                                                // the fixed-bank reader under two banks: LD A,b1 ; LD (0x2100),A ; CALL 0x3A00 ; LD D,A ; LD A,b2 ; LD (0x2100),A ; CALL 0x3A00 ; ADD A,D
+        let b1 = 1 + rng.below(8) as u8; let b2 = 1 + (b1 + rng.below(6) as u8) % 7;
+        a.b(&[0x3e, b1, 0xea, 0x00, 0x21, 0xcd, 0x00, 0x3a, 0x57, 0x3e, b2, 0xea, 0x00, 0x21, 0xcd, 0x00, 0x3a, 0x82]);
+      },
       13 => { a.b(&[0xcd, 0xa0, 0xc1]); },                    // same banked address under two banks, driven from work RAM
       10 => {                                                // two calls of the SAME banked address under different banks through the RAM trampoline
         // one time in three the pair is bank 1 and bank 8 (= bank 0 in the window on this 8-bank cartridge)
